@@ -49,10 +49,11 @@ def source_digest():
 
 def replay_case(prop, case, keep=None):
     """fresh interpreter, pristine package -> (reproduced, detail)"""
-    os.makedirs(os.path.join(VERIF, "replays"), exist_ok=True)
+    rdir = os.environ.get("VERIF_REPLAY_DIR") or os.path.join(VERIF, "replays")
+    os.makedirs(rdir, exist_ok=True)
     blob = json.dumps({"property": prop, "case": case}, sort_keys=True)
     name = "%s_%s.json" % (prop, hashlib.sha1(blob.encode()).hexdigest()[:10])
-    path = os.path.join(VERIF, "replays", name)
+    path = os.path.join(rdir, name)
     with open(path, "w") as fh:
         fh.write(blob + "\n")
     p = subprocess.run([PY, os.path.join(VERIF, "replay.py"), path],
@@ -263,8 +264,9 @@ def main(argv=None):
         },
         "assumptions": info.get("assumptions", []) + COMMON_ASSUMPTIONS,
     }
-    os.makedirs(os.path.join(VERIF, "evidence"), exist_ok=True)
-    with open(os.path.join(VERIF, "evidence", prop + ".json"), "w") as fh:
+    evdir = os.environ.get("VERIF_EVIDENCE_DIR") or os.path.join(VERIF, "evidence")
+    os.makedirs(evdir, exist_ok=True)
+    with open(os.path.join(evdir, prop + ".json"), "w") as fh:
         json.dump(ev, fh, indent=1, default=str)
         fh.write("\n")
 
